@@ -93,17 +93,54 @@ class CompHarness:
             raise Violation(f"block context {self.ctxname}: braces not found at their positions (statement consumed the closing brace?)")
         return W[start:end]
 
-    def compare(self, ex, expect, got):
-        kit = self.kit
+    def candidates(self, expect):
+        """the two context effects inherited from rust-analyzer's statement grammar, as rewrites of the expected list"""
+        K = self.kit.K
+        out = []
+        depth = 0; last_start = None
+        for i, s in enumerate(expect):
+            if depth == 0 and s[0] == "enter":
+                last_start = i
+            if s[0] == "enter":
+                depth += 1
+            elif s[0] == "exit":
+                depth -= 1
+        if last_start is not None and expect[last_start][1:] == (K["EXPR_STMT"],) and expect[-1] == ("exit",):
+            out.append(("the last statement before `}` loses its EXPR_STMT wrapper (tail expression)", expect[:last_start] + expect[last_start + 1:-1]))
+        for i in range(len(expect) - 1):
+            if expect[i] == ("exit",) and expect[i + 1][0] == "token" and isinstance(expect[i + 1][1], int) and expect[i + 1][1] == K["SEMICOLON"]:
+                out.append(("a `;` that is an empty statement on its own is absorbed into the preceding block statement",
+                            expect[:i] + [expect[i + 1], expect[i]] + expect[i + 2:]))
+        return out
+
+    def same(self, ex, expect, got, prove):
         if len(expect) != len(got):
-            raise Violation(f"statement list differs in {self.ctxname} context (split {self.k}): {self.fmt(expect)} vs {self.fmt(got)}")
+            return False
+        conds = []
         for a, b in zip(expect, got):
             if a[0] != b[0] or (a[0] == "token" and a[2] != b[2]):
-                raise Violation(f"statement list differs in {self.ctxname} context (split {self.k}): {self.fmt(expect)} vs {self.fmt(got)}")
+                return False
             if a[0] in ("enter", "token"):
-                ka = a[1].e if isinstance(a[1], SV) else z3.BitVecVal(a[1], 16)
-                kb = b[1].e if isinstance(b[1], SV) else z3.BitVecVal(b[1], 16)
-                ex.prove(ka == kb, f"statement list differs in {self.ctxname} context (split {self.k}): {self.fmt(expect)} vs {self.fmt(got)}")
+                if isinstance(a[1], int) and isinstance(b[1], int):
+                    if a[1] != b[1]:
+                        return False
+                else:
+                    ka = a[1].e if isinstance(a[1], SV) else z3.BitVecVal(a[1], 16)
+                    kb = b[1].e if isinstance(b[1], SV) else z3.BitVecVal(b[1], 16)
+                    conds.append(ka == kb)
+        if not conds:
+            return True
+        c = z3.And(conds)
+        return ex.check_sat(z3.Not(c)) is None
+
+    def compare(self, ex, expect, got):
+        ex.obligations += 1
+        if self.same(ex, expect, got, True):
+            return
+        for msg, cand in self.candidates(expect):
+            if self.same(ex, cand, got, True):
+                raise Violation(f"statement list differs: {msg}")
+        raise Violation(f"statement list differs in {self.ctxname} context (split {self.k}): {self.fmt(expect)} vs {self.fmt(got)}")
 
     def fmt(self, steps):
         out = []
@@ -133,7 +170,9 @@ class CompHarness:
         site = f"{outcome}|{self.ctxname}|{detail['msg']}"
         kid = None
         if outcome in ("violation", "panic", "stuck"):
-            kid = findings.match_known(ex, self.known, site, PEnv(kit, self.toks).env())
+            env = PEnv(kit, self.toks).env()
+            env["k"] = self.k
+            kid = findings.match_known(ex, self.known, site, env)
         return ("fail", outcome, site, ks, [(jw >> i) & 1 for i in range(self.n)], kid, self.k, self.ctxname)
 
 
@@ -188,7 +227,8 @@ def run(ctx):
     kit = ParserKit()
     N = 3 if ctx.quick() else 4
     N = int(os.environ.get("VERIF_C16_N", N))
-    ctxs = ["file", "gate", "if"] if ctx.quick() else list(CONTEXTS)
+    NB = int(os.environ.get("VERIF_C16_NB", 2 if ctx.quick() else 3))   # tokens inside block contexts
+    ctxs = ["file", "gate"] if ctx.quick() else list(CONTEXTS)
     if os.environ.get("VERIF_C16_CTX"):
         ctxs = os.environ["VERIF_C16_CTX"].split(",")
     fails = {}
@@ -199,6 +239,8 @@ def run(ctx):
             for c in ctxs:
                 if c == "file" and k == n:
                     continue   # T alone at file level is the definition of its parse
+                if c != "file" and n > NB:
+                    continue
                 if c != "file" and n == N and not ctx.quick() and k not in (1, n):
                     pass
 
@@ -266,7 +308,7 @@ def run(ctx):
         res.violations.append({"what": json.dumps(what), "replay": rp})
         res.samples.append(what)
     res.functions_encoded += ["oq3_parser::TopEntryPoint::parse (whole parser), three runs on shared symbolic tokens"]
-    res.bounds.update({"tokens": N, "split_points": "every k in 1..n", "contexts": ctxs, "alphabet": len(kit.alphabet), "joint_bits": "symbolic"})
+    res.bounds.update({"tokens": N, "tokens_in_block_contexts": NB, "split_points": "every k in 1..n", "contexts": ctxs, "alphabet": len(kit.alphabet), "joint_bits": "symbolic"})
     res.outside_claim += ["sequences longer than the bound", "statement texts (names, literal values) - invisible to the parser"]
     res.exhaustive = not res.inconclusive
     return res
